@@ -201,6 +201,7 @@ def run(ctx, rep):
             rep.ob("section-decision", "allocator-sites", False, f"{len(a)} RELR / {len(b)} RELA(relative) allocation sites in process_relocation", pr.file, pr.line)
         else:
             _field_width(rep, P, F, pr, a + b)
+            _relr_eligible_table(rep, F)
             atoms = decision_atoms(P, F, pr, a, b)
             en = [x for x in atoms if render(x[1]).startswith("is_relr_enabled(")]
             par = [x for x in atoms if x not in en]
@@ -538,6 +539,35 @@ def _no_raw(rep, P, F):
                     if dbi in reach and ("raw_value" in dv or "plt_address" in dv) and "write_address_relocation" not in dv:
                         raws.append((pr.blocks[dbi]["t"].get("l"), dv))
     rep.ob("no-raw-address", "process_resolution", len(avoid) >= 2 and not raws, "on the (is_address, relocatable) edges every GOT word comes from write_address_relocation or is 0 with a symbol-based relocation" if not raws else f"raw GOT stores: {raws}", pr.file, pr.line)
+
+
+def _relr_eligible_table(rep, F):
+    """relr_eligible(offset, sh_addralign) decides RELR vs RELA for a section relocation on both sides. A RELR entry must name an even address at every load
+    base: the section's address is a multiple of its alignment, so the place is certainly even iff the offset is even and the alignment is at least 2.
+    sh_addralign 0 means 'no constraint' (gABI: same as 1) - such a section may sit at an odd address."""
+    import mireval
+    rep.rule("relr-eligible-table", "elf::relr_eligible(offset, align), evaluated from its MIR for offsets 0..7 and sh_addralign in {0, 1, 2, 4, 8, 16, 4096}, equals "
+             "offset even && align >= 2 (align 0 is 'unconstrained', not 'even')")
+    key = "libwild::elf::relr_eligible"
+    if F.body(key) is None:
+        rep.lost("relr-eligible-table", key)
+        return
+    bad = None
+    n = 0
+    try:
+        for off in range(0, 8):
+            for al in (0, 1, 2, 4, 8, 16, 4096):
+                got = bool(mireval.call(F, key, [off, al]))
+                want = off % 2 == 0 and al >= 2
+                n += 1
+                if got != want and bad is None:
+                    bad = (off, al, got)
+    except (mireval.EvalError, mireval.Panic) as ex:
+        rep.ob("relr-eligible-table", "evaluated", False, f"relr_eligible could not be tabulated: {type(ex).__name__}: {ex}", F.body(key).file, F.body(key).line)
+        return
+    rep.ob("relr-eligible-table", "agrees", bad is None, f"{n} (offset, alignment) points agree" if bad is None else
+           f"relr_eligible(offset={bad[0]}, sh_addralign={bad[1]}) = {bad[2]}: a relative relocation in a section that may be placed at an odd address would be packed into "
+           ".relr.dyn, where an odd word is a bitmap, not an address", F.body(key).file, F.body(key).line)
 
 
 def _field_width(rep, P, F, pr, sites):
